@@ -30,6 +30,7 @@ class W:
         self.nstack = {}     # task id -> [nursery ids]
         self.never = False
         self.gb = {}         # task id -> True once the task has a greenback portal
+        self.status = {}     # task id -> task_status of a child started with nursery.start() that has not called started()
 
     def chan(self, tid):
         if tid not in self.cmd:
@@ -40,6 +41,16 @@ class W:
 async def worker(w, tid):
     w.tasks[tid] = trio.lowlevel.current_task()
     w.nstack[tid] = []
+    await interp(w, tid)
+
+
+async def started_worker(w, tid, nid, parent, task_status):
+    w.tasks[tid] = trio.lowlevel.current_task()
+    w.nstack[tid] = []
+    w.status[tid] = task_status
+    # Trio's inner nursery is the innermost one the parent has open right now
+    w.nobj[nid] = w.tasks[parent].child_nurseries[-1]
+    w.nstack[parent].append(nid)
     await interp(w, tid)
 
 
@@ -62,6 +73,12 @@ async def interp(w, tid):
             await OPENERS[cmd["e"]](w, tid, cmd["x"])
         elif a == "spawn":
             w.nobj[w.nstack[tid][-1]].start_soon(worker, w, cmd["x"])
+        elif a == "start":
+            # await nursery.start(fn): until fn calls started() the child sits in a nursery Trio opens inside start()
+            await w.nobj[w.nstack[tid][-1]].start(started_worker, w, cmd["x"], int(cmd["e"]), tid)
+            w.nstack[tid].pop()
+        elif a == "started":
+            w.status.pop(tid).started()
         elif a in ("leave", "finish"):
             return
 
